@@ -100,7 +100,8 @@ func genC16Plan(seed uint64, tier string) *C16Plan {
 		x := g.Intn(100)
 		switch {
 		case x < 8 && !inTx:
-			p.Ops = append(p.Ops, C16Op{Op: "begin"})
+			// transaction options must reach the database as they do without the proxy
+			p.Ops = append(p.Ops, C16Op{Op: "begin", Kind: simkit.Pick(g, []string{"", "", "ro", "iso-rc", "iso-rr", "iso-ser", "iso-rc-ro"})})
 			inTx = true
 		case x < 16 && inTx:
 			p.Ops = append(p.Ops, C16Op{Op: simkit.Pick(g, []string{"commit", "commit", "rollback"})})
@@ -244,7 +245,19 @@ func c16Run(ctx context.Context, db *sql.DB, ops []C16Op) (out []c16Res) {
 			args := goArgs(op.Args)
 			switch op.Op {
 			case "begin":
-				t, err := db.BeginTx(ctx, nil)
+				var topts *sql.TxOptions
+				if op.Kind != "" {
+					topts = &sql.TxOptions{ReadOnly: strings.Contains(op.Kind, "ro")}
+					switch {
+					case strings.Contains(op.Kind, "iso-rc"):
+						topts.Isolation = sql.LevelReadCommitted
+					case strings.Contains(op.Kind, "iso-rr"):
+						topts.Isolation = sql.LevelRepeatableRead
+					case strings.Contains(op.Kind, "iso-ser"):
+						topts.Isolation = sql.LevelSerializable
+					}
+				}
+				t, err := db.BeginTx(ctx, topts)
 				if err != nil {
 					out = append(out, c16Res{Err: err.Error()})
 					return
@@ -334,7 +347,9 @@ func c16Stream(j []simdb.JEntry, okOnly bool) []string {
 		default:
 			continue
 		}
-		if e.Class == "meta" || e.Class == "connect" {
+		// the proxy's own metadata look-ups are not business statements
+		up := strings.ToUpper(e.SQL)
+		if e.Class == "connect" || (e.Class == "meta" && (strings.Contains(up, "INFORMATION_SCHEMA") || strings.Contains(up, "AUTO_INCREMENT_INCREMENT"))) {
 			continue
 		}
 		s := e.Kind + " " + strings.TrimSpace(e.SQL)
@@ -366,6 +381,9 @@ func c16Feature(plan *C16Plan, op C16Op) string {
 		}
 		if len(kinds) == 1 && (kinds["update"] || kinds["delete"]) {
 			feat += "-all-" + keysOf(kinds)[0]
+			if strings.Contains(up, " LIMIT ") {
+				feat += "-limit"
+			}
 		} else {
 			feat += "-mixed-or-insert"
 		}
